@@ -61,3 +61,12 @@ claim(
     "kappa > 1e8 (scores) / 1e5 (stencils) inconclusive; optimiser runs limited to SE/RQ(+white) kernels on <= 10 points.",
     "Hypothesis PBT with brute-force refit oracle + numerical differentiation",
 )
+claim(
+    "C16",
+    "Generated-input search on SquaredExponential regressors (n<=20, d<=3, three means, three noise modes, single/batched queries "
+    "inside, at and outside the data): gradient() and spatial_derivatives() against Richardson-controlled 5-point stencils of the "
+    "regressor's own predictive mean and variance; gradient covariance symmetric, PSD and equal to prior-minus-explained with the "
+    "Jacobian of the reference kernel row; documented output shapes; kernels without derivative terms must raise NotImplementedError.",
+    "kappa > 1e6 inconclusive; non-converged stencils counted inconclusive, never violations.",
+    "Hypothesis PBT with numerical differentiation oracle",
+)
